@@ -13,7 +13,7 @@ const ms = int64(1000000)
 
 // Case is what a replay file stores.
 type Case struct {
-	Kind    string `json:"kind"`            // forced | random
+	Kind    string `json:"kind"`            // forced | random | close2
 	Point   string `json:"point,omitempty"` // forced: hook point at which a goroutine is parked
 	Op      string `json:"op,omitempty"`    // forced: operation run while it is parked
 	Op2     string `json:"op2,omitempty"`   // forced: second operation run while it is parked
@@ -30,6 +30,9 @@ func (c Case) String() string {
 			return "forced:" + c.Point + "×" + c.Op + "×" + c.Op2
 		}
 		return "forced:" + c.Point + "×" + c.Op
+	}
+	if c.Kind == "close2" {
+		return "close2"
 	}
 	return fmt.Sprintf("random:seed=%d,w=%d,n=%d,close=%v", c.Seed, c.Workers, c.Ops, c.Close)
 }
@@ -187,6 +190,8 @@ func runCase(c Case) []Ev {
 		w.runForced(c)
 	case "random":
 		w.runRandom(c)
+	case "close2":
+		w.runClose2()
 	}
 	w.finish()
 	return w.events()
@@ -238,6 +243,61 @@ func (w *World) runForced(c Case) {
 	case <-time.After(settleTimeout):
 		w.add(Ev{Kind: "hang", P: "op-" + c.Op})
 	}
+}
+
+// runClose2: two concurrent Close calls and an Enqueue that passed the stopped check before the
+// first of them. G1 = Enqueue(due item) held between its stopped check and the lock; G2 = Close
+// held right after its CompareAndSwap; then a second Close is called. Whatever that second Close
+// does, once it has returned no callback may start.
+func (w *World) runClose2() {
+	wait := func(ch chan struct{}, what string) bool {
+		select {
+		case <-ch:
+			return true
+		case <-time.After(settleTimeout):
+			w.add(Ev{Kind: "hang", P: what})
+			return false
+		}
+	}
+	r1 := &parkReq{name: "enqueue.afterStoppedCheck", parked: make(chan struct{}), release: make(chan struct{})}
+	w.park.Store(r1)
+	g1 := make(chan struct{})
+	go func() { defer close(g1); defer func() { recover() }(); w.enqueue(1, 0) }()
+	if !wait(r1.parked, "reach-enqueue.afterStoppedCheck") {
+		close(r1.release)
+		return
+	}
+	r2 := &parkReq{name: "close.afterCAS", parked: make(chan struct{}), release: make(chan struct{})}
+	w.park2.Store(r2)
+	g2 := make(chan struct{})
+	go func() {
+		defer close(g2)
+		defer func() { recover() }()
+		w.p.Close()
+		w.add(Ev{Kind: "closeret"})
+	}()
+	if !wait(r2.parked, "reach-close.afterCAS") {
+		close(r1.release)
+		close(r2.release)
+		return
+	}
+	g3 := make(chan struct{})
+	go func() {
+		defer close(g3)
+		defer func() { recover() }()
+		w.p.Close()
+		w.add(Ev{Kind: "closeret2"})
+	}()
+	select {
+	case <-g3:
+	case <-time.After(4 * time.Millisecond): // it (rightly) waits for the first Close
+	}
+	close(r1.release)
+	wait(g1, "enqueue")
+	w.settle(50 * time.Millisecond)
+	close(r2.release)
+	wait(g2, "close")
+	wait(g3, "close2")
 }
 
 type rop struct {
